@@ -48,7 +48,7 @@ func (k Keeper) RequestModuleService(
 		return sdkerrors.Wrap(types.ErrUnknownRequestContext, reqContextID.String())
 	}
 
-	_, totalPrices, _, err := k.FilterServiceProviders(
+	providers, totalPrices, _, err := k.FilterServiceProviders(
 		ctx,
 		requestContext.ServiceName,
 		requestContext.Providers,
@@ -58,6 +58,10 @@ func (k Keeper) RequestModuleService(
 	)
 	if err != nil {
 		return err
+	}
+
+	if len(providers) == 0 {
+		return sdkerrors.Wrapf(types.ErrServiceBindingUnavailable, "module service %s", requestContext.ServiceName)
 	}
 
 	if err := k.DeductServiceFees(ctx, consumer, totalPrices); err != nil {
